@@ -178,7 +178,8 @@ theorem readString_print (s : Chars) (rest acc : Chars) :
     except the control characters other than TAB, LF, CR (those stay raw — the pinned residue of I1) -/
 def topCharOk (c : Char) : Bool := c.toNat ≥ 32 || c = '\t' || c = '\n' || c = '\r'
 
-private theorem readString_top_step (c : Char) (tl acc : Chars) (h : topCharOk c = true) :
+/-- one readable character of a plain string default: the reader consumes its reported form and goes on -/
+theorem readString_top_step (c : Char) (tl acc : Chars) (h : topCharOk c = true) :
     readString ((table__STRING_ESCAPES.lookup c).getD [c] ++ tl) acc = readString tl (c :: acc) := by
   by_cases h1 : c = '"'
   · subst h1; simp [table__STRING_ESCAPES, List.lookup, readString]
